@@ -694,3 +694,110 @@ func checkC01LimitLandsOn(c *Ctx) {
 	})
 	c.Set("limit_lands_on_refusals", landed)
 }
+
+// Assignment paths: every kind of key x targets over existing, missing and unset bases of several depths
+// x every assigning operator.  Claim: ok or runtime error (what the assignment does is C09's business).
+func checkC01AssignPaths(c *Ctx) {
+	pool := c.Pool()
+	keys := []string{`0`, `1`, `(0 - 1)`, `2.5`, `7`, `"a"`, `"length"`, `""`, `true`, `false`, `null`, `unsetk`, `$.nope`, `$.name`, `[1]`, `{}`, `/r/`, `fnv`, `$`}
+	bases := []string{"o", "o.x", "o.x.y", "o.a", "o.a[0]", "u", "u.x", "u[0]", "arr", "arr[0]", "arr[5]", "arr[1].k", "$", "$.nope", "$.nope.deeper", "$.list", "$.list[0]", "str", "num", "nul", "o.length", "arr.push"}
+	forms := []string{"B[K] = 1", "B[K] += 1", "B[K]++", "--B[K]", "B[K].z = 1", "B[K][K] = 1", "B[K] = B[K]", "r = B[K]", "B[K].push(1)", "for (q in B[K]) { }", "r = match (B[K]) { m => { m = 1 } }"}
+	var jobs []Job
+	n := 0
+	for _, b := range bases {
+		for _, k := range keys {
+			for _, f := range forms {
+				n++
+				if !c.Thorough() && n%3 != int(c.Seed)%3 {
+					continue
+				}
+				st := strings.ReplaceAll(strings.ReplaceAll(f, "B", b), "K", k)
+				prog := "function fnv(a) {\n  return a\n}\n{\n  o = {a: [1, {b: 2}], s: \"t\"}\n  arr = [1, {k: 2}, [3]]\n  str = \"abc\"\n  num = 5\n  nul = null\n  " + st + "\n  print o, arr, u\n}\n"
+				jobs = append(jobs, Job{Kind: "run", Prog: []byte(prog), Files: []FileIn{{Name: "in.json", Data: []byte(`[{"list":[1,[2]],"name":"n"},{"list":[]}]`)}}, Budget: 100000, Tag: st})
+			}
+		}
+	}
+	pool.Map(jobs, func(i int, r Result) {
+		switch r.Class {
+		case "ok", "runtime", "syntax":
+			c.Case("path:"+jobs[i].Tag, r.Class != "syntax")
+		case "budget", "timeout":
+			c.Count("inconclusive", 1)
+		default:
+			c.Violation("assign-path-"+r.Class, map[string]any{"statement": jobs[i].Tag, "program": string(jobs[i].Prog), "got_class": r.Class, "got_err_type": r.ErrType, "got_err": r.ErrMsg, "detail": firstN(r.Detail, 1500),
+				"why": "an assignment / read / method call through this path and key must succeed or fail with a runtime error"})
+		}
+	})
+}
+
+// The receiver of a method is re-assigned by ANY argument of the call, also one after valid leading arguments.
+func checkC01ReceiverReassigned(c *Ctx) {
+	pool := c.Pool()
+	var jobs []Job
+	recvs := []string{`"a,b"`, `[1, 2]`, `{a: 1}`, `2.5`, `"x"`}
+	others := []string{"5", `"s"`, "[1]", "{}", "null", "true", "unsetq"}
+	lead := map[string][]string{"split": {`","`}, "push": {"1"}, "contains": {"1"}, "pluck": {`"a"`}, "upper": {}, "lower": {}, "length": {}, "pop": {}, "popfirst": {}, "sort": {}, "floor": {}, "ceil": {}, "round": {}}
+	for m, la := range lead {
+		for _, rv := range recvs {
+			for _, o := range others {
+				for _, mut := range []string{"sv = " + o, "sv++", "sv--", "sv += " + o} {
+					args := append(append([]string{}, la...), mut)
+					st := "sv = " + rv + "\n  r = sv." + m + "(" + strings.Join(args, ", ") + ")"
+					jobs = append(jobs, Job{Kind: "run", Prog: []byte("BEGIN {\n  " + st + "\n  print r, sv\n}\n{\n  " + strings.ReplaceAll(st, "sv", "$.v") + "\n  print r, $\n}\n"), Files: []FileIn{{Name: "in.json", Data: []byte(`[{"v":"p,q"},{"v":[3,1]}]`)}}, Budget: 100000, Tag: st})
+					// through a name bound by a match pattern
+					st2 := "sv = " + rv + "\n  r = match (sv) { n => n." + m + "(" + strings.ReplaceAll(strings.Join(args, ", "), "sv", "n") + ") }"
+					jobs = append(jobs, Job{Kind: "run", Prog: []byte("BEGIN {\n  " + st2 + "\n  print r, sv\n}\n"), Budget: 100000, Tag: st2})
+				}
+			}
+		}
+	}
+	pool.Map(jobs, func(i int, r Result) {
+		switch r.Class {
+		case "ok", "runtime", "syntax":
+			c.Case("recv:"+jobs[i].Tag, r.Class != "syntax")
+		case "budget", "timeout":
+			c.Count("inconclusive", 1)
+		default:
+			c.Violation("receiver-reassigned-"+r.Class, map[string]any{"statement": jobs[i].Tag, "program": string(jobs[i].Prog), "got_class": r.Class, "got_err": r.ErrMsg, "detail": firstN(r.Detail, 1500),
+				"why": "a method call whose arguments re-assign the receiver must succeed or fail with a runtime error"})
+		}
+	})
+}
+
+// Lexing terminates: every byte, and every two-byte sequence starting with a byte >= 0x80, at the start of
+// a token, in the middle of an identifier, after a number, inside brackets -- in the program text and in
+// a selector.  Lexing is linear in the text, so a lexer that has not finished a few dozen bytes after
+// 60 seconds does not terminate: this is the one family where a timeout is a verdict.
+func checkC01LexTerminates(c *Ctx) {
+	pool := c.Pool()
+	var jobs []Job
+	add := func(seq []byte) {
+		for _, ctx := range []string{"%s", "{ x = %s 1 }", "{ x = a%s }", "{ x = 1%s }", "{ x = [%s] }", "%s { print }", "{ print 1 } %s"} {
+			text := strings.Replace(ctx, "%s", string(seq), 1)
+			jobs = append(jobs, Job{Kind: "lex", Prog: []byte(text), Tag: fmt.Sprintf("%q", text)})
+		}
+		jobs = append(jobs, Job{Kind: "run", Prog: []byte("{ print }"), Sels: []string{"$ " + string(seq)}, Files: []FileIn{{Name: "in.json", Data: []byte("[1]")}}, Budget: 10000, Tag: fmt.Sprintf("selector %q", "$ "+string(seq))})
+	}
+	for b := 0; b < 256; b++ {
+		add([]byte{byte(b)})
+	}
+	for b := 0x80; b < 256; b++ {
+		for _, b2 := range []int{0x20, 0x41, 0x80, 0x9f, 0xa0, 0xa9, 0xbf, 0xc2, 0xff, 0x0a} {
+			if !c.Thorough() && (b+b2)%2 != int(c.Seed)%2 {
+				continue
+			}
+			add([]byte{byte(b), byte(b2)})
+		}
+	}
+	pool.Map(jobs, func(i int, r Result) {
+		switch r.Class {
+		case "timeout":
+			c.Violation("lex-hangs", map[string]any{"text": jobs[i].Tag, "text_bytes": jobs[i].Prog, "selectors": jobs[i].Sels,
+				"why": "lexing / parsing a text of a few dozen bytes did not finish within the worker's time limit: the run never ends by itself"})
+		case "panic", "crash", "other":
+			c.Violation("lex-"+r.Class, map[string]any{"text": jobs[i].Tag, "text_bytes": jobs[i].Prog, "got_class": r.Class, "detail": firstN(r.Detail, 1500)})
+		default:
+			c.Case("lexterm:"+jobs[i].Tag, true)
+		}
+	})
+}
